@@ -1,11 +1,14 @@
 mod c01;
 mod c02;
 mod c03;
+mod c07;
 mod c08;
 mod c09;
 mod c10;
 mod c11;
 mod c12;
+mod c13;
+mod ext;
 mod c20;
 mod ev;
 mod gen;
@@ -29,11 +32,13 @@ fn main() {
         "c01" => c01::main(tier),
         "c02" => c02::main(tier),
         "c03" => c03::main(tier),
+        "c07" => c07::main(tier),
         "c08" => c08::main(tier),
         "c09" => c09::main(tier),
         "c10" => c10::main(tier),
         "c11" => c11::main(tier),
         "c12" => c12::main(tier),
+        "c13" => c13::main(tier),
         "c20" => c20::main(tier),
         "eval" => {
             // vmc eval '<program>' '<input as jq program>' [inputs as jq programs...]
